@@ -150,6 +150,25 @@ func PlayGrid(tier string) []*Config {
 	add(cfg([]int64{3, 2}, 0, 1, 2, 0, false, 0, "no", "f52:16", 4, 2, "standard", "classes"))
 	add(cfg([]int64{2, 2, 2, 2, 2, 2, 2}, 0, 1, 2, 0, false, 0, "no", "f36", 4, 2, "short", "classes"))
 
+	// (E) magnitude twins: small shapes with every amount multiplied by k = 1001, 2^31+1, 2^53+1, 2^56+1
+	// (table stakes in the thousands; beyond 32 bits; odd values no float64 can hold; near the top of int64)
+	for _, k := range []int64{1001, 1<<31 + 1, 1<<53 + 1, 1<<56 + 1} {
+		sc := func(v ...int64) []int64 {
+			o := make([]int64, len(v))
+			for i, x := range v {
+				o[i] = x * k
+			}
+			return o
+		}
+		add(cfg(sc(3, 5), 0, k, 2*k, 0, false, 0, "no", "f52", 2, 0, "standard", "edges"))
+		add(cfg(sc(2, 4, 3), k, k, 2*k, 0, false, 1, "no", "sv:1,1,0", 2, 0, "standard", "edges"))
+		add(cfg(sc(5, 3, 4), 0, k, 2*k, 3*k, false, 2, "no", "f52", 2, 0, "standard", "edges"))
+		add(cfg(sc(4, 2, 6), 0, k, 2*k, 0, true, 0, "no", "sv:0,1,1", 2, 0, "standard", "edges"))
+		add(cfg(sc(4, 4, 4), 0, k, 2*k, 0, false, 0, "pot", "r52", 2, 0, "standard", "edges"))
+		add(cfg(sc(3, 3), k, k, 3*k, 0, false, 1, "no", "f52", 2, 0, "standard", "edges"))
+		add(cfg(sc(5, 2, 3, 4), 0, k, 2*k, 0, false, 3, "no", "sv:1,0,1,2", 2, 0, "standard", "edges"))
+	}
+
 	if tier != "thorough" {
 		return out
 	}
